@@ -144,7 +144,7 @@ def run(tier, seed):
         raise vlib.InfraError("generation produced %d items\n%s" % (len(items), gen["out"][-2000:]))
     execs, nsrc = build_execs(items, tier, rng)
     # long random walks (TLC -simulate): history-dependent behaviour that one-test-per-transition cannot reach
-    nwalk = 400 if tier == "quick" else 4000
+    nwalk = 400 if tier == "quick" else 6000
     sim = vlib.tlc_emit("Modes_MC.tla", "cfg/Modes_sim.cfg", simulate=nwalk, depth=30, seed=seed + 1, workers=1, timeout=600)
     walks = [it["h"] for it in sim["items"]]
     if len(walks) < nwalk // 2:
